@@ -1,13 +1,18 @@
 (* C16 — shell.Split/Scanner tokenize by POSIX quoting rules.
-   Only statements, each closed by [exact] of a lemma proved in Shell/ShellProofs16.v over the
-   transducer table, byte classes, Complete's state set, Next's end-of-input rule and the
-   initial/Rest states regenerated from shell/shell.go (Gen/ShellTable.v).
+   Only statements, each closed by [exact] of a lemma of Shell/ShellFinal.v.  The functions are
+   those of Shell/ShellModel.v, assembled from the transducer table, byte classes, Complete's state
+   set, Next's end-of-input rule, the initial/Rest states AND the control skeleton (what each action
+   of Next's switch does with the byte, that Next tests the error latch, clears the token and
+   records the read error, what Rest and Reset assign, that Split resets its pooled scanner)
+   regenerated from shell/shell.go (Gen/ShellTable.v).  Shell/ShellSkel.v proves that model equal to a
+   readable statement-by-statement transcription, over which Shell/ShellProofs16.v and
+   Shell/ShellProofsX.v are carried out.
    The reference ([ref_split], [skip_sep], [word], [session_ok], [ref_rest], [tok_outs]) is
    written from the standard in Shell/ShellSpec.v and Shell/ShellSession.v and never mentions the
    table.  Reader fragmentation (bufio) is not in the model: correspondence only. *)
 From Coq Require Import NArith List.
 Import ListNotations.
-From Mds Require Import Shell.ShellModel Shell.ShellSpec Shell.ShellSession Shell.ShellProofs16.
+From Mds Require Import Gen.ShellTable Shell.ShellModel Shell.ShellSpec Shell.ShellSession Shell.ShellFinal.
 Local Open Scope N_scope.
 
 (* Split(s) never panics and returns exactly the fields and the completeness flag of the
@@ -20,6 +25,16 @@ Print Assumptions C16_ref.
 Example C16_ref_ex :
   split [97; 32; 98; 92; 32; 99; 32; 34; 100; 92; 34; 101; 34; 32; 39; 102]
   = Some ([[97]; [98; 32; 99]; [100; 34; 101]; [102]], false).
+Proof. vm_compute. reflexivity. Qed.
+
+(* ... whatever state the pooled scanner that Split takes was left in (Split resets it). *)
+Theorem C16_ref_pooled : forall (sc : scanner) (s : list N), split_from sc s = Some (ref_split s).
+Proof. exact split_ref_pooled. Qed.
+Print Assumptions C16_ref_pooled.
+
+Example C16_ref_pooled_ex :
+  split_from {| inp := [120; 34; 121]; st := stSingle; cur := [122]; eof := true |} [97; 32; 39; 98]
+  = Some ([[97]; [98]], false).
 Proof. vm_compute. reflexivity. Qed.
 
 (* Whole sessions: for every input and EVERY sequence of Next/Rest calls on a new Scanner, the
